@@ -510,6 +510,7 @@ class VbsWriter(object):
     """
     def __init__(self, out_file: typing.BinaryIO, blocked: bool = False):
         self.out_file = out_file
+        self._finalised = False
         if blocked:
             self.out_file = Block1014(out_file)
 
@@ -556,6 +557,11 @@ class VbsWriter(object):
 
         :return: None
         """
+        # finalise only once: the file is rewound on close, so a second
+        # finalisation would overwrite what the first one completed
+        if self._finalised:
+            return
+        self._finalised = True
         # add zero length to end of record
         self.out_file.write(struct.pack(">I", 0))
         self.out_file.seek(0)
